@@ -67,10 +67,12 @@ func (e *Env) c12Run(base, tag string, v int, out string, custom bool) c12Edge {
 	if custom {
 		sp = 1
 	}
-	return e.c12RunSp(base, tag, v, out, sp)
+	return e.c12RunSp(base, tag, v, out, sp, true)
 }
 
-func (e *Env) c12RunSp(base, tag string, v int, out string, sp int) c12Edge {
+// sibling: the package has an ordinary (untagged) file next to the setup file; without one, the setup file and the
+// file at the output path are the only files that decide what the loader takes the package to be
+func (e *Env) c12RunSp(base, tag string, v int, out string, sp int, sibling bool) c12Edge {
 	custom := sp == 1
 	root := filepath.Join(base, tag)
 	defer os.RemoveAll(root)
@@ -81,6 +83,9 @@ func (e *Env) c12RunSp(base, tag string, v int, out string, sp int) c12Edge {
 	}
 	for rel, src := range c12Versions[v].files {
 		files["p/"+rel] = src
+	}
+	if !sibling {
+		delete(files, "p/other.go")
 	}
 	outName := "setup.gen.go"
 	args := []string{"setup.go"}
@@ -156,7 +161,7 @@ func init() {
 		}
 		e.Rep.Rule("explicit-state search over (setup version, bytes at the output path): versions v1 base, v2 field renamed, v3 :conv naming a function that exists only in v1's stale output, v4 rejected input, v5 second interface, v6/v7 an auto-imported package that moves between the versions, v8/v9 a :conv whose package import is dropped from the setup file but lives on in the stale output; " +
 			"transitions Run, Edit(v'), Crash(k) for EVERY byte offset k of each version's output, Corrupt{empty, header only, package clause only, unbalanced brace, garbage line, duplicated func, wrong package clause, type error, redeclared types, NUL bytes, license prepended, first bytes overwritten, header removed, hand-written file, blank lines around, doubled final newline, CRLF line ends, stale output of every other version}; " +
-			"default output path and (thorough) an -out path in the package directory, plus the default location NAMED differently from the input (absolute -out, -out through the parent directory, absolute input with relative -out) over every crash point up to the package clause and every corruption; invariant on every Run edge: exit status, stdout, stderr and bytes afterwards equal those of the Run edge from (v, absent) (unchanged bytes for a rejected v); " +
+			"default output path and (thorough) an -out path in the package directory, plus a package without any ordinary sibling file, its default location named as usual and NAMED differently from the input (absolute -out, -out through the parent directory, absolute input with relative -out), over every crash point up to the package clause and every corruption; invariant on every Run edge: exit status, stdout, stderr and bytes afterwards equal those of the Run edge from (v, absent) (unchanged bytes for a rejected v); " +
 			"non-trivial = Run edge whose pre-state output differs from both absent and W(v)")
 		for _, custom := range customs {
 			// reference edges from (v, ⊥)
@@ -311,11 +316,13 @@ func init() {
 				}
 				mu.Unlock()
 			})
-			// the same output location named differently from the input (absolute / through the parent directory): the tool must
-			// still recognise the file at the output path as its own; enumerated over the contents that decide what the loader
-			// sees (every crash point up to the end of the package clause, and every corruption)
+			// a package WITHOUT any ordinary sibling file (the setup file and the file at the output path alone decide what the
+			// loader takes the package to be), with the default output location named as usual and named differently from the
+			// input (absolute / through the parent directory): the tool must still recognise the file at the output path as
+			// its own; enumerated over the contents that decide what the loader sees (every crash point up to the end of the
+			// package clause, and every corruption)
 			if !custom {
-				for sp := 2; sp < len(c12Spellings); sp++ {
+				for _, sp := range []int{0, 2, 3, 4} {
 					type sjob struct {
 						v int
 						c content
@@ -343,14 +350,14 @@ func init() {
 					e.Rep.AddStates(len(sjobs))
 					refSp := map[int]c12Edge{}
 					for _, v := range versions {
-						refSp[v] = e.c12RunSp(base, fmt.Sprintf("refsp_%d_%d", v, sp), v, absent, sp)
+						refSp[v] = e.c12RunSp(base, fmt.Sprintf("refsp_%d_%d", v, sp), v, absent, sp, false)
 						e.Rep.AddTransitions(1)
 					}
 					tool.Parallel(len(sjobs), e.Workers, func(i int) {
 						j := sjobs[i]
 						want := refSp[j.v]
 						judge := func(tag string) string {
-							got := e.c12RunSp(base, tag, j.v, j.c.bytes, sp)
+							got := e.c12RunSp(base, tag, j.v, j.c.bytes, sp, false)
 							wantAfter := want.After
 							if want.Exit != 0 {
 								wantAfter = j.c.bytes
@@ -385,7 +392,7 @@ func init() {
 							mu.Lock()
 							e.Rep.Report(report.Finding{Key: fmt.Sprintf("C12|spelled-output-path|version=%s|pre=%s|spelling=%s", c12Versions[j.v].id, kind, c12Spellings[sp]), CellID: fmt.Sprintf("%s_after_%s_sp%d", c12Versions[j.v].id, j.c.label, sp), What: d,
 								Replay: &report.Replay{Kind: "history", Files: map[string]string{"p/setup.go": c12Versions[j.v].src, "p/setup.gen.go": j.c.bytes},
-									Steps: []string{"state: setup " + c12Versions[j.v].id + ", output path holds " + j.c.label, "cwd=<root>/p", "convergen " + c12Spellings[sp]}}})
+									Steps: []string{"state: setup " + c12Versions[j.v].id + ", output path holds " + j.c.label + "; the package has no other file", "cwd=<root>/p", "convergen " + c12Spellings[sp]}}})
 							mu.Unlock()
 						}
 					})
